@@ -110,6 +110,11 @@ pub trait Sut {
     fn build(&mut self, _key: &str, _v: &Val) -> Option<Result<Built, String>> {
         None
     }
+    /// decode `bytes` and compare the typed result with the typed value constructed from `want`, using the
+    /// type's own PartialEq; None when the type cannot be constructed from outside (then Debug is compared)
+    fn decode_eq(&mut self, _key: &str, _bytes: &[u8], _want: &Val) -> Option<bool> {
+        None
+    }
     /// decode, re-encode, decode again
     fn run(&mut self, key: &str, bytes: &[u8]) -> Outcome;
     /// decode only
@@ -232,6 +237,16 @@ impl<'a> Engine<'a> {
         Engine { schema, codec: Codec::new(schema), gen: Gen::new(schema, cfg), prop, reject_counts: Default::default() }
     }
 
+    /// Is the value the real decoder produced for `bytes` the reference value `want`?  Judged with the type's
+    /// own PartialEq against the typed value constructed from `want`; for the types that cannot be constructed
+    /// from outside the crate, by comparing derived Debug with the rendering of `want`.
+    fn value_matches(&self, sut: &mut dyn Sut, def: &StructDef, bytes: &[u8], debug: &str, want: &Val) -> bool {
+        match sut.decode_eq(&def.key, bytes, want) {
+            Some(eq) => eq,
+            None => debug == render_struct(self.schema, def, want),
+        }
+    }
+
     fn count_reject(&self, r: &mut Report, fail: &CanonFail) {
         let class = match fail {
             CanonFail::Reject(Reject::TooLong) => "E4_too_long_for_field_or_prefix",
@@ -310,8 +325,10 @@ impl<'a> Engine<'a> {
             Some(Ok(built)) => {
                 r.count("cases_with_typed_construction", 1);
                 if built.debug != expected {
-                    r.inconclusive(&format!("harness: constructed {} does not render as the reference value ({} vs {})", def.key, short(&built.debug), short(&expected)));
-                } else {
+                    // a custom Debug implementation or another field order: rendering is only used for messages
+                    r.count("typed_values_rendering_differently_from_the_reference", 1);
+                }
+                {
                     if self.prop.has(Prop::C03) && built.enc != b {
                         let f = match self.codec.decode(def, &built.enc) {
                             Ok((v2, _)) => first_diff_field(&expected, &render_struct(self.schema, def, &v2)),
@@ -332,7 +349,7 @@ impl<'a> Engine<'a> {
                                 case(),
                             ),
                             Ok((eq, rest, dbg2)) => {
-                                if !*eq || *rest != 0 || dbg2 != &expected {
+                                if !*eq || *rest != 0 {
                                     let f = first_diff_field(&expected, dbg2);
                                     let f = if f == "?" { focus.unwrap_or("*").to_string() } else { f };
                                     r.violation(
@@ -373,7 +390,7 @@ impl<'a> Engine<'a> {
             }
             Outcome::Ok { debug, rest, reenc, re_eq, re_rest, re_err, re_debug } => {
                 if self.prop.has(Prop::C03) {
-                    if debug != expected {
+                    if !self.value_matches(sut, def, b, &debug, v) {
                         let f = field_or_focus(first_diff_field(&expected, &debug));
                         r.violation(
                             &format!("{}.{}: decoder disagrees with the layout table", def.key, f),
@@ -411,7 +428,7 @@ impl<'a> Engine<'a> {
                             &format!("x = {} but decode(encode(x)) = {} ({} bytes left)", short(&debug), short(&re_debug), re_rest),
                             case(),
                         );
-                    } else if debug == expected && re_debug != expected {
+                    } else if !self.value_matches(sut, def, &reenc, &re_debug, v) {
                         let f = field_or_focus(first_diff_field(&expected, &re_debug));
                         r.violation(&format!("{}.{}: value changes on serialise -> deserialise", def.key, f), &format!("round trip yields {}", short(&re_debug)), case());
                     }
@@ -447,7 +464,7 @@ impl<'a> Engine<'a> {
                 r.case(h, true);
                 let expected = render_struct(self.schema, def, v);
                 match out {
-                    Outcome::Ok { debug, rest, .. } if debug == expected && rest == 0 => {}
+                    Outcome::Ok { debug, rest, .. } if rest == 0 && self.value_matches(sut, def, bytes, &debug, v) => {}
                     Outcome::Ok { debug, rest, .. } => {
                         let f = first_diff_field(&expected, &debug);
                         r.violation(&format!("{prop_name} {key}.{f}: permuted tagged fields decode differently"), &format!("got {} ({rest} left), expected {}", short(&debug), short(&expected)), case())
@@ -510,7 +527,7 @@ impl<'a> Engine<'a> {
                     (Ok((v2, _)), Outcome::Ok { debug, .. }) => {
                         r.case(h, true);
                         let expected = render_struct(self.schema, def, v2);
-                        if debug != expected {
+                        if !self.value_matches(sut, def, bytes, &debug, v2) {
                             let f = first_diff_field(&expected, &debug);
                             r.violation(&format!("{prop_name} {key}.{f}: unknown tag disturbs the decoded value"), &format!("got {}, the bytes preceding the unknown tag say {}", short(&debug), short(&expected)), case());
                         } else {
@@ -533,9 +550,9 @@ impl<'a> Engine<'a> {
                 r.case(h, true);
                 let expected = render_struct(self.schema, def, v2);
                 match out {
-                    Outcome::Ok { debug, rest: got_rest, .. } if debug == expected && got_rest == rest.len() => {}
+                    Outcome::Ok { debug, rest: got_rest, .. } if got_rest == rest.len() && self.value_matches(sut, def, bytes, &debug, v2) => {}
                     Outcome::Ok { debug, rest: got_rest, .. } => {
-                        let f = if debug != expected { first_diff_field(&expected, &debug) } else { "remainder".into() };
+                        let f = if got_rest == rest.len() || debug != expected { first_diff_field(&expected, &debug) } else { "remainder".into() };
                         r.violation(
                             &format!("{prop_name} {key}.{f}: bytes outside the announced length influence the result ({kind})"),
                             &format!("got {} with {got_rest} bytes left; expected {} with {} bytes left", short(&debug), short(&expected), rest.len()),
